@@ -1,1 +1,10 @@
-/-! STUB — property C14 is not built yet. -/
+import Martian.Model.HttpSpec
+namespace Martian.Props.C14
+open Martian Martian.Go Martian.HttpSpec
+
+def rfcHopByHop : List Bytes := ["Connection", "Keep-Alive", "Proxy-Authenticate", "Proxy-Authorization", "TE", "Trailer",
+  "Transfer-Encoding", "Upgrade"].map strBytes
+
+theorem rfc_hop_by_hop_listed : ∀ k ∈ rfcHopByHop, canonKey k ∈ fixedList.map canonKey := by decide
+
+end Martian.Props.C14
